@@ -27,6 +27,7 @@ def gen(c):
     decay_for_x = c.flag("decay_for_X")
     via_copy = c.flag("source_via_copy")
     no_source = c.flag("no_source")
+    both = c.flag("conjugate_copy_source_too")
     n_unrel = c.choose("n_unrelated", [0, 2, 5])
     n_cdecay = c.choose("n_cdecay", [1, 2, 3, 4])
     k_orient = c.choose("MyK_chargeconj", ["fwd", "rev", "none"])
@@ -54,6 +55,11 @@ def gen(c):
             model, params = "MAcc", None
         lines.append([f"0.{i+1}", ds, i % 2, model, params])
     src_name = "Orig" if via_copy else S
+    if via_copy and both:
+        # the original of the copy is conjugated as well (its own alias pair)
+        chargeconj_extra = [["ChargeConj", "Orig", "Origbar"]]
+    else:
+        chargeconj_extra = []
     group_block = []
     if not no_source:
         group_block.append(["Decay", src_name, lines])
@@ -62,7 +68,8 @@ def gen(c):
     group_block += [["Define", "dm", "0.507e12"], ["ModelAlias", "MAcc", "HELAMP", ["1.0", "0.0", "-dm"]]]
     if decay_for_x:
         group_block.append(["Decay", X, [["0.9", ["e+", "e-"], 0, "PHSP", None]]])
-    cdecays = [["CDecay", X]]
+    cdecays = [["CDecay", X]] + ([["CDecay", "Origbar"]] if chargeconj_extra and not no_source else [])
+    chargeconj = chargeconj + chargeconj_extra
     extra = []
     if n_cdecay >= 2:
         extra.append(["Decay", "D+", [["1.0", ["K-", "pi+", "pi+", "MyK+"], 1, "D_DALITZ", None], ["0.5", ["anti-K0", "e+", "nu_e"], 0, "ISGW2", None]]])
